@@ -1,0 +1,147 @@
+//go:build verif
+
+package core
+
+// Export shims for the C14 verification harness (add-only, build tag verif).
+
+import (
+	listener "github.com/envoyproxy/go-control-plane/envoy/config/listener/v3"
+	route "github.com/envoyproxy/go-control-plane/envoy/config/route/v3"
+
+	cluster "github.com/envoyproxy/go-control-plane/envoy/config/cluster/v3"
+
+	"istio.io/istio/pilot/pkg/model"
+	"istio.io/istio/pkg/util/sets"
+)
+
+// VerifC14DedupeDomains calls dedupeDomains; vhdomains is updated in place as in the real caller.
+func VerifC14DedupeDomains(domains []string, vhdomains sets.String, expandedHosts []string, knownFQDNs sets.String) []string {
+	return dedupeDomains(domains, vhdomains, expandedHosts, knownFQDNs)
+}
+
+// VerifC14MergeAllVirtualHosts calls mergeAllVirtualHosts.
+func VerifC14MergeAllVirtualHosts(m map[int][]*route.VirtualHost) []*route.VirtualHost {
+	return mergeAllVirtualHosts(m)
+}
+
+// VerifC14NormalizeClusterNames runs ClusterBuilder.normalizeClusters over clusters carrying the given names.
+func VerifC14NormalizeClusterNames(names []string) []string {
+	cb := &ClusterBuilder{req: &model.PushRequest{Push: model.NewPushContext()}, proxyID: "verif"}
+	in := make([]*cluster.Cluster, 0, len(names))
+	for _, n := range names {
+		in = append(in, &cluster.Cluster{Name: n})
+	}
+	out := cb.normalizeClusters(in)
+	res := make([]string, 0, len(out))
+	for _, c := range out {
+		res = append(res, c.Name)
+	}
+	return res
+}
+
+// VerifC14Chain is the match part of a filterChainOpts.
+type VerifC14Chain struct {
+	Transport string
+	ALPN      []string
+	SNI       []string
+	CIDR      []string
+}
+
+func (c VerifC14Chain) opts() *filterChainOpts {
+	return &filterChainOpts{
+		sniHosts:             c.SNI,
+		destinationCIDRs:     c.CIDR,
+		applicationProtocols: c.ALPN,
+		transportProtocol:    c.Transport,
+	}
+}
+
+func verifC14ChainOf(o *filterChainOpts) VerifC14Chain {
+	return VerifC14Chain{Transport: o.transportProtocol, ALPN: o.applicationProtocols, SNI: o.sniHosts, CIDR: o.destinationCIDRs}
+}
+
+// VerifC14ConflictsWith calls filterChainOpts.conflictsWith.
+func VerifC14ConflictsWith(a, b VerifC14Chain) bool {
+	return a.opts().conflictsWith(b.opts())
+}
+
+// VerifC14ToFilterChainMatch calls filterChainOpts.toFilterChainMatch.
+func VerifC14ToFilterChainMatch(a VerifC14Chain) *listener.FilterChainMatch {
+	return a.opts().toFilterChainMatch()
+}
+
+// VerifC14MergeTCPFilterChains calls mergeTCPFilterChains on an entry holding cur.
+func VerifC14MergeTCPFilterChains(node *model.Proxy, push *model.PushContext, cur, inc []VerifC14Chain) []VerifC14Chain {
+	e := &outboundListenerEntry{servicePort: &model.Port{Port: 80, Protocol: "TCP"}}
+	for _, c := range cur {
+		e.chains = append(e.chains, c.opts())
+	}
+	in := make([]*filterChainOpts, 0, len(inc))
+	for _, c := range inc {
+		in = append(in, c.opts())
+	}
+	mergeTCPFilterChains(e, in, outboundListenerOpts{push: push, proxy: node, port: &model.Port{Port: 80, Protocol: "TCP"}})
+	out := make([]VerifC14Chain, 0, len(e.chains))
+	for _, c := range e.chains {
+		out = append(out, verifC14ChainOf(c))
+	}
+	return out
+}
+
+// VerifC14Step is one call of buildSidecarOutboundListener (Lock = the catch-all egress listener starts:
+// every existing entry is locked first).
+type VerifC14Step struct {
+	Lock    bool
+	Service *model.Service
+	Port    *model.Port
+	Bind    []string
+}
+
+// VerifC14Entry is one outboundListenerEntry of the conflict map.
+type VerifC14Entry struct {
+	Bind     string
+	Port     int
+	Name     string
+	Locked   bool
+	Protocol string
+	Chains   []VerifC14Chain
+}
+
+func verifC14Entries(m map[listenerKey]*outboundListenerEntry) []VerifC14Entry {
+	out := make([]VerifC14Entry, 0, len(m))
+	for k, e := range m {
+		ve := VerifC14Entry{Bind: k.bind, Port: k.port, Locked: e.locked, Protocol: string(e.protocol),
+			Name: getListenerName(e.bind.Primary(), e.servicePort.Port, 0)}
+		for _, c := range e.chains {
+			ve.Chains = append(ve.Chains, verifC14ChainOf(c))
+		}
+		out = append(out, ve)
+	}
+	return out
+}
+
+// VerifC14OutboundSeq runs the given steps through buildSidecarOutboundListener on one shared conflict map and
+// returns the resulting map, plus, per step, the map obtained by running that step alone on an empty map.
+func VerifC14OutboundSeq(node *model.Proxy, push *model.PushContext, steps []VerifC14Step) ([]VerifC14Entry, [][]VerifC14Entry) {
+	lb := NewListenerBuilder(node, push)
+	actualWildcards, _ := getWildcardsAndLocalHost(node.GetIPMode())
+	shared := make(map[listenerKey]*outboundListenerEntry)
+	solo := make([][]VerifC14Entry, 0, len(steps))
+	for _, st := range steps {
+		if st.Lock {
+			for _, e := range shared {
+				e.locked = true
+			}
+			solo = append(solo, nil)
+			continue
+		}
+		mk := func() outboundListenerOpts {
+			return outboundListenerOpts{push: push, proxy: node, bind: listenerBinding{binds: append([]string{}, st.Bind...)}, port: st.Port, service: st.Service}
+		}
+		one := make(map[listenerKey]*outboundListenerEntry)
+		lb.buildSidecarOutboundListener(mk(), one, nil, actualWildcards)
+		solo = append(solo, verifC14Entries(one))
+		lb.buildSidecarOutboundListener(mk(), shared, nil, actualWildcards)
+	}
+	return verifC14Entries(shared), solo
+}
